@@ -57,6 +57,11 @@ func runC02(c *Ctx) {
 	ruleStampHasRecord(c, "C02.18")
 	c04PageLSN(c, "C02.19")
 	ruleListIterationStable(c, "C02.20")
+	ruleNoRedundantSwitchBreak(c, "C02.21", "storage", "engine")
+	ruleDescentAgreement(c, "C02.22")
+	ruleOpenFlags(c, "C02.23")
+	ruleCapabilityPresent(c, "C02.24")
+	ruleReplaySkipsOnlyOnPageLSN(c, "C02.25")
 	ruleErrorsNotDropped(c, "C02.16", "storage.(*BTree).insert", "storage.(*RelationService).Insert", "storage.(*RelationService).MarkDeleted", "storage.(*RelationService).FlushWALBatch")
 }
 
